@@ -81,6 +81,7 @@ class Mod:
         if not os.environ.get("LXS_NO_RENAME"):
             from . import names
             if not os.environ.get("LXS_NO_INLINE"):
+                names.canon_counters(self.tree)
                 self.inlined = names.inline_new_helpers(self.tree, rel)
                 if self.inlined:
                     _nm.canon_consts(self.tree)
